@@ -41,11 +41,15 @@ pub struct AuthCfg {
     pub id_len: Option<u8>,
     pub hmac: HmacCfg,
     pub aaguid: [u8; 16],
+    /// the consuming `transports` builder is called last (after the setters and the hmac-secret builder):
+    /// 1 an empty list, 2 usb, 3 internal + hybrid; 0 = not called
+    #[serde(default)]
+    pub transports: u8,
 }
 
 impl Default for AuthCfg {
     fn default() -> Self {
-        AuthCfg { counter: false, id_len: None, hmac: HmacCfg::None, aaguid: [0; 16] }
+        AuthCfg { counter: false, id_len: None, hmac: HmacCfg::None, aaguid: [0; 16], transports: 0 }
     }
 }
 
@@ -62,12 +66,19 @@ pub fn build_authenticator<S: CredentialStore>(store: S, uv: ScriptedUv, cfg: &A
     if let Some(n) = cfg.id_len {
         a.set_make_credential_id_length(CredentialIdLength::from(n));
     }
-    match cfg.hmac {
+    let a = match cfg.hmac {
         HmacCfg::None => a,
         HmacCfg::UvOnly => a.hmac_secret(HmacSecretConfig::new_with_uv_only()),
         HmacCfg::UvOnlyMc => a.hmac_secret(HmacSecretConfig::new_with_uv_only().enable_on_make_credential()),
         HmacCfg::WithoutUv => a.hmac_secret(HmacSecretConfig::new_without_uv()),
         HmacCfg::WithoutUvMc => a.hmac_secret(HmacSecretConfig::new_without_uv().enable_on_make_credential()),
+    };
+    use passkey_types::webauthn::AuthenticatorTransport as T;
+    match cfg.transports % 4 {
+        0 => a,
+        1 => a.transports(vec![]),
+        2 => a.transports(vec![T::Usb]),
+        _ => a.transports(vec![T::Internal, T::Hybrid]),
     }
 }
 
